@@ -16,6 +16,8 @@
 const vm = require('vm')
 const path = require('path')
 
+const JOB_TIMEOUT_MS = 60000
+
 const HELPERS = `
 (function (global, freeNames, wnames) {
   const MARKS = new WeakMap()
@@ -187,7 +189,11 @@ async function main() {
   const input = JSON.parse(data)
   const results = []
   for (const job of input.jobs) {
-    try { results.push(await runJob(job)) } catch (e) { results.push({ id: job.id, imm: {}, def: {}, exports: {}, probes: {}, error: 'harness: ' + errName(e) }) }
+    // a job whose promise never settles (or that takes absurdly long) must not stall the batch
+    let timer
+    const guard = new Promise((resolve) => { timer = setTimeout(() => resolve({ id: job.id, imm: {}, def: {}, exports: {}, probes: {}, error: 'harness: TIMEOUT' }), JOB_TIMEOUT_MS) })
+    try { results.push(await Promise.race([runJob(job), guard])) } catch (e) { results.push({ id: job.id, imm: {}, def: {}, exports: {}, probes: {}, error: 'harness: ' + errName(e) }) }
+    clearTimeout(timer)
   }
   process.stdout.write(JSON.stringify({ results }))
 }
